@@ -17,6 +17,7 @@ require (
 	github.com/libp2p/go-libp2p-raft v0.1.7
 	github.com/libp2p/go-libp2p-record v0.1.3
 	github.com/multiformats/go-multiaddr v0.3.3
+	github.com/multiformats/go-multibase v0.0.3
 	github.com/multiformats/go-multihash v0.0.15
 	github.com/ugorji/go/codec v1.2.6
 	google.golang.org/protobuf v1.27.1
